@@ -161,8 +161,8 @@ def run(index, tier="quick", seed=0) -> Result:
             sign_ok = False
             for node in ast.walk(fn.node):
                 if isinstance(node, ast.UnaryOp) and isinstance(node.op, ast.USub) and isinstance(node.operand, ast.Subscript):
-                    sl = ast.unparse(node.operand.slice).replace(" ", "")
-                    if sl in ("3", ":,3"):
+                    sl = ast.unparse(node.operand.slice).replace(" ", "").strip("()")
+                    if sl in ("3", ":,3", "-1", ":,-1"):
                         sign_ok = True
             if ok and sign_ok:
                 res.ok("FF-4", label)
